@@ -68,6 +68,38 @@ def nargs(f):
     return f.__code__.co_argcount - len(f.__defaults__ or ())
 
 
+from lib.refeval import LDec   # a literal number prints plainly also inside containers
+
+LITS = {'True': True, 'False': False, 'None': None, '0': LDec(0), '1': LDec(1), '""': '', '"s"': 's', '[]': [], '[0]': [LDec(0)]}
+
+
+def with_literals(shape, r, max_variants=6):
+    """variants of a shape in which one leaf is a LITERAL instead of a probe (a parser or evaluator that treats
+    literal operands specially - folding, fast paths - has to leave the remaining probes' order and count alone)"""
+    leaves = []
+
+    def walk(s, path):
+        if s == ('P',):
+            leaves.append(path)
+        elif isinstance(s, tuple):
+            for i, x in enumerate(s):
+                if isinstance(x, tuple):
+                    walk(x, path + (i,))
+    walk(shape, ())
+    if len(leaves) < 2:
+        return
+
+    def put(s, path, new):
+        if not path:
+            return new
+        return s[:path[0]] + (put(s[path[0]], path[1:], new),) + s[path[0] + 1:]
+    picks = [(l, t) for l in leaves for t in LITS]
+    if len(picks) > max_variants:
+        picks = r.sample(picks, max_variants)
+    for l, t in picks:
+        yield put(shape, l, ('lit', t))
+
+
 def number(shape, counter):
     """replace ('P',) leaves by ('P', i) in left-to-right textual order"""
     if shape == ('P',):
@@ -82,6 +114,8 @@ def render(s):
     k = s[0]
     if k == 'P':
         return 't(%d)' % s[1]
+    if k == 'lit':
+        return s[1]
     R = render
     if k == 'bin':
         return '(%s %s %s)' % (R(s[2]), s[1], R(s[3]))
@@ -139,6 +173,9 @@ def r5(s, env):
         if env['raise_at'] == s[1]:
             raise ProbeError(s[1])
         return env['plan'][s[1]]
+    if k == 'lit':
+        v = LITS[s[1]]
+        return list(v) if isinstance(v, list) else v
     if k == 'and':
         a = r5(s[1], env)
         return r5(s[2], env) if truthy(a) else a
@@ -211,6 +248,8 @@ def guard(f):
 def apply_bin(op, a, b):
     def f():
         if op == '+':
+            if isinstance(a, str) and not isinstance(b, str):
+                return a + str(b)          # string-on-the-left coercion
             return a + b
         if op == '-':
             return a - b
@@ -348,15 +387,17 @@ def shapes(ctx):
 
 def cases(ctx):
     n = 0
+    r = random.Random(ctx.seed * 7919 + 11)
     for sh in shapes(ctx):
-        cnt = [0]
-        s = number(sh, cnt)
-        k = cnt[0]
-        if k > 9:
-            continue
-        if n % ctx.nshards == ctx.shard:
-            yield ('shape', s, k, ctx.rnd.getrandbits(32))
-        n += 1
+        for variant in [sh] + list(with_literals(sh, r, 2 if ctx.quick else 8)):
+            cnt = [0]
+            s = number(variant, cnt)
+            k = cnt[0]
+            if k > 9 or k < 1:
+                continue
+            if n % ctx.nshards == ctx.shard:
+                yield ('shape', s, k, ctx.rnd.getrandbits(32))
+            n += 1
 
 
 def host(ctx, mode):
@@ -425,6 +466,7 @@ def run_case(case, ctx):
                         ctx.count('value_vs_error_differences_ignored(C07 territory)')
                     continue
                 if exp[0] == 'value' and not statement and s[0] in ('and', 'or', 'if'):
+                    ctx.cov('literal_operands', any(isinstance(x, tuple) and x[:1] == ('lit',) for x in s[1:]))
                     ctx.count('deciding_operand_checks')
                     ok = (got[1] is exp[1]) if mode == 'obj' and isinstance(exp[1], list) and any(exp[1] is p for p in plan) else (got[1] == exp[1])
                     if not ok:
